@@ -144,6 +144,9 @@ def drive_case(case):
 
     o["rdelim"] = case["rdelim"]
     o["rd"] = _res(rd)
+    # ... and the way a backend does it for a target that wants the delimiter AND the escape character escaped
+    # (re_escape = [delimiter], re_escape_escape_char): the text that goes between the delimiters
+    o["rdesc"] = _res(lambda: {"esc": cps(s.to_regex().escape([delim], "\\", True, False)), "plain": cps(str(s.to_regex().regexp))})
     # the regex transformation of processing pipelines (three methods)
     from sigma.processing.transformations import RegexTransformation
     from sigma.types import SigmaRegularExpression, SigmaRegularExpressionFlag
